@@ -274,9 +274,13 @@ func (h *Handler) serveListRepository(w http.ResponseWriter, r *http.Request, us
 	repoList := []string{}
 	h.Logger.Info(fmt.Sprintf("serveListRepository all len %v", len(repositories)))
 	for i := range repositories {
-		if !repositories[i].MarkDeleted {
-			repoList = append(repoList, repositories[i].Name)
+		if repositories[i].MarkDeleted {
+			continue
 		}
+		if h.Config.AuthEnabled && (user == nil || !canSeeRepository(user, repositories[i].Name)) {
+			continue
+		}
+		repoList = append(repoList, repositories[i].Name)
 	}
 	sort.Strings(repoList)
 	buffer, err := json2.Marshal(repoList)
@@ -301,6 +305,9 @@ func (h *Handler) serveShowRepository(w http.ResponseWriter, r *http.Request, us
 		h.Logger.Error("serveRepository", zap.Error(err))
 		h.httpErrorRsp(w, ErrorResponse(err.Error(), LogReqErr), http.StatusBadRequest)
 		handlerStat.Write400ErrRequests.Incr()
+		return
+	}
+	if !h.requireRepositoryRead(w, user, repository, "show repository") {
 		return
 	}
 	h.Logger.Info("serveRepository", zap.String("repository", repository))
@@ -434,6 +441,9 @@ func (h *Handler) serveListLogstream(w http.ResponseWriter, r *http.Request, use
 		handlerStat.Write400ErrRequests.Incr()
 		return
 	}
+	if !h.requireRepositoryRead(w, user, repository, "list logstreams") {
+		return
+	}
 	h.Logger.Info("serveListLogstream", zap.String("repository", repository))
 	dbInfo, err := h.MetaClient.Database(repository)
 	if err != nil {
@@ -470,6 +480,9 @@ func (h *Handler) serveShowLogstream(w http.ResponseWriter, r *http.Request, use
 		h.Logger.Error("serveLogstream", zap.Error(err))
 		h.httpErrorRsp(w, ErrorResponse(err.Error(), LogReqErr), http.StatusBadRequest)
 		handlerStat.Write400ErrRequests.Incr()
+		return
+	}
+	if !h.requireRepositoryRead(w, user, repository, "show logstream") {
 		return
 	}
 	rpi, err := h.MetaClient.RetentionPolicy(repository, logStream)
